@@ -962,6 +962,19 @@ func (ex *Exec) callFn(caller *frame, fn *ssa.Function, args []Value, env []Valu
 	if fn.TypeParams().Len() > 0 && len(fn.TypeArgs()) == 0 {
 		panic(unsupported{"uninstantiated generic " + fn.String()})
 	}
+	if ex.sched != nil && ex.h.PreemptCalls != "" && ex.sched.preemptions < ex.sched.maxPreempt {
+		pkg := fn.Pkg
+		if pkg == nil && fn.Origin() != nil {
+			pkg = fn.Origin().Pkg
+		}
+		if pkg == nil && fn.Parent() != nil {
+			pkg = fn.Parent().Pkg
+		}
+		if pkg != nil && strings.HasPrefix(pkg.Pkg.Path(), ex.h.PreemptCalls) && !strings.Contains(pkg.Pkg.Path(), "/zz_verif/") &&
+			!strings.HasPrefix(fn.Name(), "verif") && !strings.HasPrefix(fn.Name(), "Verif") {
+			ex.yield("call " + fn.Name())
+		}
+	}
 	fi := ex.info(fn)
 	fr := &frame{ex: ex, fn: fn, caller: caller, info: fi, env: make([]Value, fi.n)}
 	if caller != nil {
